@@ -1,4 +1,7 @@
 import EinxModel.Proofs.Registry
+import EinxModel.Proofs.RegistryOrder
+import EinxModel.Proofs.RegistryLazy
+import EinxModel.Proofs.RegistryDiscipline
 import EinxModel.Extracted.Registry
 /-!
 C11 — backend selection follows the documented precedence and is stable.
@@ -59,53 +62,8 @@ theorem get_quiet_spec (cfg : Cfg) (s : State) (mods : List String) (arg : Backe
     (q : Quiet s mods) (ok : MemoOK s) :
     (match s.get cfg mods arg tys with
       | .ok (s', b) => specGet s arg tys = .ok b ∧ Same s s' ∧ MemoOK s' ∧ Quiet s' mods
-      | .error e => specGet s arg tys = .error e) := by
-  cases arg with
-  | obj b => simp [State.get, specGet, Same.refl, ok, q]
-  | name n =>
-    have hn := getByName_quiet cfg s mods false n q
-    cases hd : dictGet s.names n with
-    | some b => simp [State.get, specGet, hn.1 b hd, hd, Same.refl, ok, q]
-    | none => simp [State.get, specGet, hn.2 hd, hd]
-  | none =>
-    cases hs : s.stack.getLast? with
-    | some b => simp [State.get, specGet, hs, Same.refl, ok, q]
-    | none =>
-      have hg := getByTensors_quiet cfg s mods tys q ok
-      simp only [State.get, specGet, hs]
-      by_cases hbad : tys.all isScalarTy = true ∧ dictGet s.names "numpy" = none ∧ (s.memo.find? (·.1 == tys)).isNone
-      · simp [hg.1 hbad, hbad.1, hbad.2.1]
-      · obtain ⟨s', he, hsame, hok⟩ := hg.2 hbad
-        have hcond : (tys.all isScalarTy && (dictGet s.names "numpy").isNone) = false := by
-          by_cases h1 : tys.all isScalarTy = true
-          · cases h2 : dictGet s.names "numpy" with
-            | some _ => simp
-            | none =>
-              -- then the memo must have hit; a sound memo entry contradicts an empty candidate list
-              have h3 : (s.memo.find? (·.1 == tys)).isNone = false := by
-                cases h4 : (s.memo.find? (·.1 == tys)).isNone with
-                | false => rfl
-                | true => exact absurd ⟨h1, h2, h4⟩ hbad
-              cases h5 : s.memo.find? (·.1 == tys) with
-              | none => simp [h5] at h3
-              | some e =>
-                have hm := find_memo h5
-                have := ok e hm.1
-                rw [hm.2] at this
-                simp [select, candidates, h1, h2, keepMax] at this
-          · simp [h1]
-        simp only [he, hcond]
-        have q' : Quiet s' mods := quiet_congr hsame q
-        cases hsel : select s tys with
-        | nil => simp
-        | cons b rest =>
-          cases rest with
-          | nil => simp [hsame, hok, q']
-          | cons c rest' => simp
-  | other =>
-    cases hs : s.stack.getLast? with
-    | some b => simp [State.get, specGet, hs, Same.refl, ok, q]
-    | none => simp [State.get, specGet, hs]
+      | .error e => specGet s arg tys = .error e) :=
+  get_quiet cfg s mods arg tys q ok
 
 /-- Registering a backend always leaves a sound memo (given the extracted fact that `_register`
 clears it), and cannot wake up a waiting factory. -/
@@ -182,5 +140,373 @@ example :
     have : e = ([3], np) := by simpa [s] using he
     subst this; decide
   · rfl
+
+/-! ## Order and history independence
+
+"The choice does not depend on registration order or earlier lookups", for all sets of distinctly named
+registered backends, all registration orders, all sequences of lookups / module imports / nested `with` blocks. -/
+
+/-- Outcomes are compared up to the enumeration order of an ambiguous candidate set (`OutEq`: the same
+backend, the same error, or "several candidates" with a permutation of the same uids).  It is an equivalence
+relation, and on every outcome other than "several candidates" it is equality. -/
+theorem outEq_equivalence : Equivalence OutEq := ⟨OutEq.refl, OutEq.symm, OutEq.trans⟩
+
+theorem outEq_ok (x : Except Err Backend) (b : Backend) : OutEq x (.ok b) ↔ x = .ok b := outEq_ok_iff
+
+/-- **What is selected, as a set**: among the registered backends with distinct uids, exactly the valid ones
+that accept one of the (non-scalar) argument types and have the highest priority among those.  Nothing in
+this description refers to an order. -/
+theorem select_is_max_priority_set (s : State) (hU : (s.backends.map (·.uid)).Nodup) (tys : List Nat)
+    (hsc : tys.all isScalarTy = false) (x : Backend) :
+    x ∈ select s tys ↔
+      (x ∈ s.backends ∧ x.invalid = false ∧ ∃ ty ∈ tys, ty ∈ x.accepts) ∧
+      ∀ y, (y ∈ s.backends ∧ y.invalid = false ∧ ∃ ty ∈ tys, ty ∈ y.accepts) → y.priority ≤ x.priority :=
+  mem_select (uidInj_of_nodup _ hU) hsc x
+
+/-- The selected list never contains a backend twice. -/
+theorem select_nodup (s : State) (tys : List Nat) : (select s tys).Nodup :=
+  nodup_of_nodup_uid (nodup_uid_select s tys)
+
+/-- **Selection does not depend on the order of `backends`**: two states with the same set of backends
+(distinct uids) and the same name map select permutations of the same list, for every tuple of argument
+types – the same members, the same number, the same unique choice. -/
+theorem select_order_independent (s t : State) (hmem : ∀ b, b ∈ s.backends ↔ b ∈ t.backends)
+    (hs : (s.backends.map (·.uid)).Nodup) (ht : (t.backends.map (·.uid)).Nodup)
+    (hnames : ∀ n, dictGet s.names n = dictGet t.names n) (tys : List Nat) :
+    (select s tys).Perm (select t tys) ∧ (∀ b, b ∈ select s tys ↔ b ∈ select t tys) ∧
+      (select s tys).length = (select t tys).length ∧ (∀ b, select s tys = [b] ↔ select t tys = [b]) := by
+  have hp : (select s tys).Perm (select t tys) :=
+    select_perm (t := { t with stack := s.stack }) ⟨hmem, uidInj_of_nodup _ hs, uidInj_of_nodup _ ht, hnames, rfl⟩ tys
+  refine ⟨hp, fun b => hp.mem_iff, hp.length_eq, fun b => ⟨fun e => ?_, fun e => ?_⟩⟩
+  · rw [e] at hp; exact (List.singleton_perm.1 hp).symm
+  · rw [e] at hp; exact List.perm_singleton.1 hp
+
+/-- … hence the specified outcome of a lookup – precedence chain included – is the same. -/
+theorem specGet_order_independent (s t : State) (h : SameSet s t) (arg : BackendArg) (tys : List Nat) :
+    OutEq (specGet s arg tys) (specGet t arg tys) := specGet_outEq h arg tys
+
+/-- **Registration order**: registering two permutations of a list of distinctly named backends with distinct
+uids (from the empty registry) leads to states with the same set of backends and the same name map; both are
+quiet for every `sys.modules` and have a sound memo. -/
+theorem register_order_independent (cfg : Cfg) (bs bs' : List Backend) (hp : bs.Perm bs')
+    (hn : (bs.map (·.name)).Nodup) (hu : (bs.map (·.uid)).Nodup) (mods : List String) :
+    SameSet (registerAll cfg {} bs) (registerAll cfg {} bs') ∧
+      Quiet (registerAll cfg {} bs) mods ∧ MemoOK (registerAll cfg {} bs) ∧
+      (registerAll cfg {} bs).backends = bs ∧ ∀ b ∈ bs, dictGet (registerAll cfg {} bs).names b.name = some b :=
+  ⟨registerAll_sameSet cfg hp hn hu, registerAll_quiet cfg bs mods, registerAll_memoOK cfg bs,
+    by simpa using (registerAll_fields cfg bs {}).1, registerAll_names_mem cfg bs {} hn⟩
+
+/-- **The implementation's lookup does not depend on the registration order** – nor on the lookups made in
+between: after registering `bs` resp. a permutation `bs'` and then *any two* sequences of lookups, `get`
+(memo, import checks and all) returns `OutEq`-equal outcomes. -/
+theorem get_registration_order_independent (cfg : Cfg) (mods : List String) (bs bs' : List Backend)
+    (hp : bs.Perm bs') (hn : (bs.map (·.name)).Nodup) (hu : (bs.map (·.uid)).Nodup)
+    (hist hist' : List (BackendArg × List Nat)) (arg : BackendArg) (tys : List Nat) :
+    let run := fun (s : State) (h : List (BackendArg × List Nat)) =>
+      h.foldl (fun s (c : BackendArg × List Nat) =>
+        match s.get cfg mods c.1 c.2 with
+        | .ok (s', _) => s'
+        | .error _ => s) s
+    OutEq (((run (registerAll cfg {} bs) hist).get cfg mods arg tys).map (·.2))
+      (((run (registerAll cfg {} bs') hist').get cfg mods arg tys).map (·.2)) := by
+  intro run
+  have h1 := lookups_history_independent cfg mods hist (registerAll cfg {} bs)
+    (registerAll_quiet cfg bs mods) (registerAll_memoOK cfg bs) arg tys
+  have h2 := lookups_history_independent cfg mods hist' (registerAll cfg {} bs')
+    (registerAll_quiet cfg bs' mods) (registerAll_memoOK cfg bs') arg tys
+  simp only at h1 h2
+  simp only [run, h1, h2]
+  exact specGet_outEq (registerAll_sameSet cfg hp hn hu) arg tys
+
+/-- The specification state of a history (`specState`: registrations append, `with` blocks push and pop,
+everything else is ignored) consists of exactly the registered backends in registration order, each found
+under its name (later registrations of a name win), no memo, no waiting factory. -/
+theorem specState_fields (ops : List Op) :
+    (specState ops).backends = regsOf ops ∧
+    (specState ops).names = (regsOf ops).foldl (fun d b => dictSet d b.name b) [] ∧
+    (specState ops).uninit = [] ∧ (specState ops).memo = [] := by
+  have h := foldl_specStep_fields ops {}
+  exact ⟨by simpa [specState] using h.1, h.2.1, h.2.2.1, h.2.2.2.1⟩
+
+/-- … and it is not moved by lookups and module imports anywhere in the history. -/
+theorem specState_ignores_lookups (ops : List Op) :
+    specState ops = specState (ops.filter (fun o => !Op.isLookup o)) := foldl_specStep_filter ops {}
+
+/-- **History independence**: after *any* sequence of `register`, `get`, `get_by_name`, `enter`, `exit`
+(balanced or not; failing calls included) and module imports – no lazy registration – on a fresh
+`BackendRegistry`, a lookup returns exactly what the pure specification says about the state that has the
+registered backends and the current `with` stack: earlier lookups, their memo entries and their import checks
+never influence it.  (`cfg.registerClearsMemo` is the extracted fact `extracted_register_clears_memo`.) -/
+theorem history_independent (cfg : Cfg) (hc : cfg.registerClearsMemo = true) (mods₀ : List String)
+    (ops : List Op) (he : ∀ op ∈ ops, op.isEager = true) (arg : BackendArg) (tys : List Nat) :
+    let w := (runOps cfg { st := {}, mods := mods₀ } ops).1
+    (w.st.get cfg w.mods arg tys).map (·.2) = specGet (specState ops) arg tys := by
+  intro w
+  have inv : EagerInv w.st (specState ops) := runOps_eagerInv cfg hc ops _ _ he eagerInv_empty
+  have h := get_quiet cfg w.st w.mods arg tys (inv.quiet _) inv.memo
+  rw [← specGet_congr inv.same]
+  cases hg : w.st.get cfg w.mods arg tys with
+  | ok r => obtain ⟨s', b⟩ := r; rw [hg] at h; simp [Except.map, h.1]
+  | error e => rw [hg] at h; simp [Except.map, h]
+
+/-- **Registration order and history together**: two histories without lazy registration that registered the
+same distinctly named backends *in any order*, interleaved with *any* lookups, and are at the same `with`
+nesting, answer a lookup with `OutEq`-equal outcomes. -/
+theorem history_order_independent (cfg : Cfg) (hc : cfg.registerClearsMemo = true) (mods₀ mods₀' : List String)
+    (ops ops' : List Op) (he : ∀ op ∈ ops, op.isEager = true) (he' : ∀ op ∈ ops', op.isEager = true)
+    (hp : (regsOf ops).Perm (regsOf ops'))
+    (hn : ((regsOf ops).map (·.name)).Nodup) (hu : ((regsOf ops).map (·.uid)).Nodup)
+    (hst : (specState ops).stack = (specState ops').stack) (arg : BackendArg) (tys : List Nat) :
+    let w := (runOps cfg { st := {}, mods := mods₀ } ops).1
+    let w' := (runOps cfg { st := {}, mods := mods₀' } ops').1
+    OutEq ((w.st.get cfg w.mods arg tys).map (·.2)) ((w'.st.get cfg w'.mods arg tys).map (·.2)) := by
+  intro w w'
+  have h1 := history_independent cfg hc mods₀ ops he arg tys
+  have h2 := history_independent cfg hc mods₀' ops' he' arg tys
+  simp only at h1 h2
+  simp only [w, w', h1, h2]
+  exact specGet_outEq (specState_sameSet hp hn hu hst) arg tys
+
+section NonVacuity
+private def ba : Backend := { uid := 1, name := "a", priority := 0, accepts := [3], invalid := false }
+private def bb : Backend := { uid := 2, name := "b", priority := 0, accepts := [3, 4], invalid := false }
+private def bc : Backend := { uid := 3, name := "c", priority := -1, accepts := [4, 5], invalid := false }
+private def bd : Backend := { uid := 4, name := "numpy", priority := -1, accepts := [5], invalid := false }
+
+/-- Non-vacuity of `select_order_independent` / `register_order_independent` /
+`get_registration_order_independent`: two registration orders of four backends with equal and different
+priorities.  The hypotheses hold; the outcomes are a unique choice by priority (`[4]`), a unique choice among
+equal priorities by acceptance (`[5, 4]`), an ambiguity whose uid list *is* enumerated differently (`[3]`),
+no match (`[7]`), scalars, and a name. -/
+example :
+    [ba, bb, bc, bd].Perm [bd, bc, ba, bb] ∧ ([ba, bb, bc, bd].map (·.name)).Nodup ∧ ([ba, bb, bc, bd].map (·.uid)).Nodup ∧
+    specGet (registerAll ⟨true⟩ {} [ba, bb, bc, bd]) .none [4] = .ok bb ∧
+    specGet (registerAll ⟨true⟩ {} [bd, bc, ba, bb]) .none [4] = .ok bb ∧
+    specGet (registerAll ⟨true⟩ {} [ba, bb, bc, bd]) .none [3] = .error (.multiple [1, 2]) ∧
+    specGet (registerAll ⟨true⟩ {} [bd, bb, bc, ba]) .none [3] = .error (.multiple [2, 1]) ∧
+    specGet (registerAll ⟨true⟩ {} [ba, bb, bc, bd]) .none [5] = .error (.multiple [3, 4]) ∧
+    specGet (registerAll ⟨true⟩ {} [bd, bc, ba, bb]) .none [5] = .error (.multiple [4, 3]) ∧
+    specGet (registerAll ⟨true⟩ {} [bd, bc, ba, bb]) .none [7] = .error .nomatch ∧
+    specGet (registerAll ⟨true⟩ {} [bd, bc, ba, bb]) .none [0, 1] = .ok bd ∧
+    specGet (registerAll ⟨true⟩ {} [bd, bc, ba, bb]) (.name "c") [3] = .ok bc :=
+  ⟨by decide, by decide, by decide, rfl, rfl, rfl, rfl, rfl, rfl, rfl, rfl, rfl⟩
+
+/-- Non-vacuity of `history_independent` / `history_order_independent`: two histories with different
+registration orders, different lookups in between (one of them failing, one inside a `with` block, an
+unbalanced `exit`), the same final `with` nesting. -/
+example :
+    let ops := [Op.register ba, .get .none [3], .register bb, .get .none [3], .enter bc, .get .none [4], .exit bc,
+      .importModule "jax", .register bc, .get (.name "zzz") [], .exit ba]
+    let ops' := [Op.register bc, .register bb, .get .none [4], .getByName "c", .register ba]
+    (∀ op ∈ ops, op.isEager = true) ∧ (∀ op ∈ ops', op.isEager = true) ∧
+    (regsOf ops).Perm (regsOf ops') ∧ regsOf ops = [ba, bb, bc] ∧ regsOf ops' = [bc, bb, ba] ∧
+    ((regsOf ops).map (·.name)).Nodup ∧ ((regsOf ops).map (·.uid)).Nodup ∧
+    (specState ops).stack = (specState ops').stack ∧
+    (runOps ⟨true⟩ {} ops).2 = [.unit, .backend 1, .unit, .error (.multiple [1, 2]), .unit, .backend 3, .unit,
+      .unit, .unit, .error .value, .error .assertion] ∧
+    specGet (specState ops) .none [4] = .ok bb ∧ specGet (specState ops') .none [4] = .ok bb ∧
+    specGet (specState ops) .none [3] = .error (.multiple [1, 2]) ∧
+    specGet (specState ops') .none [3] = .error (.multiple [2, 1]) := by
+  intro ops ops'
+  refine ⟨by decide, by decide, by decide, rfl, rfl, by decide, by decide, rfl, rfl, rfl, rfl, rfl, rfl⟩
+
+/-- Without distinct names the name map *does* depend on the order (later registrations win), so the
+hypothesis of `register_order_independent` cannot be dropped. -/
+example :
+    let x : Backend := { uid := 1, name := "n", priority := 0, accepts := [3], invalid := false }
+    let y : Backend := { uid := 2, name := "n", priority := 0, accepts := [4], invalid := false }
+    specGet (registerAll ⟨true⟩ {} [x, y]) (.name "n") [] = .ok y ∧
+    specGet (registerAll ⟨true⟩ {} [y, x]) (.name "n") [] = .ok x := ⟨rfl, rfl⟩
+end NonVacuity
+
+/-! ## Lazy registration (`register_on_import`)
+
+With factories waiting for an already imported module the choice *is* history dependent in general
+(`lazy_mix_history_dependent` below).  Under the discipline einx's own registrations follow it is not. -/
+
+/-- Every world reachable from a fresh registry – by any operations, lazy registration and imports included – is
+well formed: seen modules are imported and have no waiting factory. -/
+theorem runOps_wellFormed (cfg : Cfg) (mods₀ : List String) (ops : List Op) :
+    WellFormed (runOps cfg { st := {}, mods := mods₀ } ops).1 :=
+  wfs_runOps cfg ops _ ⟨fun _ h => (by cases h), fun _ h => (by cases h)⟩
+
+/-- The effective state is quiet: running the import check twice changes nothing more. -/
+theorem flush_is_quiet (cfg : Cfg) (mods₀ : List String) (ops : List Op) :
+    let w := (runOps cfg { st := {}, mods := mods₀ } ops).1
+    Quiet (w.st.flush cfg w.mods) w.mods ∧ (w.st.flush cfg w.mods).stack = w.st.stack :=
+  ⟨flush_quiet cfg _ _ (runOps_wellFormed cfg mods₀ ops).2, flush_stack cfg _ _⟩
+
+/-- **Lookup with waiting factories**: after *any* history (eager and lazy registrations, imports, lookups, `with`
+blocks), if the state satisfies `LazyDiscipline` for the argument types – decidable, see its definition – the
+lookup returns what the pure specification says about the *effective* state, in which every factory registered
+for a module that is imported by now has been run.  In particular it does not matter whether, when and by which
+lookup the import check happened. -/
+theorem get_lazy_spec (cfg : Cfg) (mods₀ : List String) (ops : List Op) (arg : BackendArg) (tys : List Nat) :
+    let w := (runOps cfg { st := {}, mods := mods₀ } ops).1
+    LazyDiscipline cfg w.st w.mods tys →
+      (w.st.get cfg w.mods arg tys).map (·.2) = specGet (w.st.flush cfg w.mods) arg tys :=
+  fun d => get_pending cfg _ _ arg tys (runOps_wellFormed cfg mods₀ ops).2 d
+
+/-- `get_lazy_spec` generalises `get_quiet_spec`: in a quiet state the discipline is the soundness of the memo and
+the effective state is the state itself (up to `seen`). -/
+theorem lazyDiscipline_quiet (cfg : Cfg) (s : State) (mods : List String) (tys : List Nat)
+    (q : Quiet s mods) (ok : MemoOK s) :
+    LazyDiscipline cfg s mods tys ∧ Same s (s.flush cfg mods) :=
+  ⟨lazyDiscipline_of_quiet cfg s mods tys q ok, (flush_of_quiet cfg s mods q).1⟩
+
+/-- **Histories with lazy registration under einx's discipline** (`disciplined`, a `Bool` computed from the
+operation sequence alone: new names; tensor types of a lazily registered backend are accepted by no eagerly
+registered backend and by no lazily registered backend of another module; a lookup never involves a type that a
+factory waiting for a *not yet imported* module accepts).  After any such history – registrations of both kinds,
+imports, lookups (failing ones included), `with` blocks, in any interleaving – every disciplined state satisfies
+`LazyDiscipline` for every tuple of argument types, so a lookup returns exactly what the pure specification says
+about the effective state: it does not matter which earlier lookups happened, what they memoised, and whether one
+of them already ran the import check. -/
+theorem lazy_history_spec (cfg : Cfg) (hc : cfg.registerClearsMemo = true) (mods₀ : List String) (ops : List Op)
+    (hd : disciplined { mods := mods₀ } ops = true) (arg : BackendArg) (tys : List Nat) :
+    let w := (runOps cfg { st := {}, mods := mods₀ } ops).1
+    LazyDiscipline cfg w.st w.mods tys ∧
+      (w.st.get cfg w.mods arg tys).map (·.2) = specGet (w.st.flush cfg w.mods) arg tys := by
+  intro w
+  obtain ⟨ci, ti⟩ := run_ci cfg hc ops { st := {}, mods := mods₀ } { mods := mods₀ } (ci_empty mods₀) (ti_empty mods₀) hd
+  have d := ci_discipline cfg ci ti tys
+  exact ⟨d, get_pending cfg _ _ arg tys ci.wf.2 d⟩
+
+/-- **The effective state, without reference to the implementation**: after a disciplined history its backends
+are – as a set – the backends registered eagerly together with the products of the factories registered lazily for
+a module that is imported by now (`Track.effective`, computed from the operation sequence alone); a name finds
+exactly the backend of that name among them; the `with` stack is that of the specification state; and it is quiet. -/
+theorem lazy_effective_state (cfg : Cfg) (hc : cfg.registerClearsMemo = true) (mods₀ : List String) (ops : List Op)
+    (hd : disciplined { mods := mods₀ } ops = true) :
+    let w := (runOps cfg { st := {}, mods := mods₀ } ops).1
+    let e := w.st.flush cfg w.mods
+    (∀ x, x ∈ e.backends ↔ x ∈ (trackOf mods₀ ops).effective) ∧
+    (∀ n x, dictGet e.names n = some x ↔ x ∈ (trackOf mods₀ ops).effective ∧ x.name = n) ∧
+    e.stack = (specState ops).stack ∧ Quiet e w.mods := by
+  intro w e
+  obtain ⟨ci, ri, ti, hst⟩ := run_all cfg hc ops { st := {}, mods := mods₀ } { mods := mods₀ } {}
+    (ci_empty mods₀) (ri_empty mods₀) (ti_empty mods₀) rfl hd
+  refine ⟨effective_mem cfg ci ri ti, fun n x => ?_, (flush_stack cfg _ _).trans hst, flush_quiet cfg _ _ ci.wf.2⟩
+  rw [effective_names cfg ci ri ti n x, effective_mem cfg ci ri ti x]
+  rfl
+
+/-- **Order and history independence with lazy registration**: two disciplined histories – different registration
+orders, eager in one and lazy in the other, different lookups and imports in between, different moments at which
+the import check ran – that have *effectively* registered the same set of backends (uid determines the backend)
+and are at the same `with` nesting answer every lookup with `OutEq`-equal outcomes. -/
+theorem lazy_history_independent (cfg : Cfg) (hc : cfg.registerClearsMemo = true) (mods₀ mods₀' : List String)
+    (ops ops' : List Op) (hd : disciplined { mods := mods₀ } ops = true) (hd' : disciplined { mods := mods₀' } ops' = true)
+    (heff : ∀ x, x ∈ (trackOf mods₀ ops).effective ↔ x ∈ (trackOf mods₀' ops').effective)
+    (hinj : UidInj (trackOf mods₀ ops).effective)
+    (hst : (specState ops).stack = (specState ops').stack) (arg : BackendArg) (tys : List Nat) :
+    let w := (runOps cfg { st := {}, mods := mods₀ } ops).1
+    let w' := (runOps cfg { st := {}, mods := mods₀' } ops').1
+    OutEq ((w.st.get cfg w.mods arg tys).map (·.2)) ((w'.st.get cfg w'.mods arg tys).map (·.2)) := by
+  intro w w'
+  have h1 := (lazy_history_spec cfg hc mods₀ ops hd arg tys).2
+  have h2 := (lazy_history_spec cfg hc mods₀' ops' hd' arg tys).2
+  obtain ⟨m1, n1, s1, _⟩ := lazy_effective_state cfg hc mods₀ ops hd
+  obtain ⟨m2, n2, s2, _⟩ := lazy_effective_state cfg hc mods₀' ops' hd'
+  simp only [w, w', h1, h2]
+  apply specGet_outEq
+  refine ⟨fun b => by rw [m1, m2]; exact heff b, fun x hx y hy => hinj x ((m1 x).1 hx) y ((m1 y).1 hy),
+    fun x hx y hy => hinj x ((heff x).2 ((m2 x).1 hx)) y ((heff y).2 ((m2 y).1 hy)), fun n => ?_, by rw [s1, s2, hst]⟩
+  cases h : dictGet ((runOps cfg { st := {}, mods := mods₀ } ops).1.st.flush cfg (runOps cfg { st := {}, mods := mods₀ } ops).1.mods).names n with
+  | some x =>
+    have := (n1 n x).1 h
+    exact ((n2 n x).2 ⟨(heff x).1 this.1, this.2⟩).symm
+  | none =>
+    cases h' : dictGet ((runOps cfg { st := {}, mods := mods₀' } ops').1.st.flush cfg (runOps cfg { st := {}, mods := mods₀' } ops').1.mods).names n with
+    | none => rfl
+    | some y =>
+      have := (n2 n y).1 h'
+      rw [(n1 n y).2 ⟨(heff y).2 this.1, this.2⟩] at h
+      cases h
+
+section NonVacuityLazy
+private def fj : Factory := { name := "jax", produces := { uid := 10, name := "jax", priority := 0, accepts := [6], invalid := false } }
+private def fj2 : Factory := { name := "jax.x", produces := { uid := 11, name := "jax.x", priority := -5, accepts := [6], invalid := false } }
+private def ft : Factory := { name := "torch", produces := { uid := 12, name := "torch", priority := 0, accepts := [7], invalid := true } }
+
+/-- Non-vacuity of `get_lazy_spec`: factories wait for "jax" (imported meanwhile, not yet seen) and "torch" (not
+imported); a numpy lookup has been memoised before.  The discipline holds for jax arrays, numpy arrays and their
+mix; the state is *not* quiet; the lookups answer from the effective state. -/
+example :
+    let ops := [Op.register ba, .registerOnImport "jax" fj, .registerOnImport "jax" fj2, .registerOnImport "torch" ft,
+      .get .none [3], .importModule "jax"]
+    let w := (runOps ⟨true⟩ {} ops).1
+    ¬ Quiet w.st w.mods ∧ w.st.memo = [([3], ba)] ∧
+    LazyDiscipline ⟨true⟩ w.st w.mods [6] ∧ LazyDiscipline ⟨true⟩ w.st w.mods [3] ∧
+    LazyDiscipline ⟨true⟩ w.st w.mods [3, 6] ∧
+    (w.st.flush ⟨true⟩ w.mods).backends = [ba, fj.produces, fj2.produces] ∧
+    (w.st.get ⟨true⟩ w.mods .none [6]).map (·.2) = .ok fj.produces ∧
+    (w.st.get ⟨true⟩ w.mods .none [3]).map (·.2) = .ok ba ∧
+    (w.st.get ⟨true⟩ w.mods .none [3, 6]).map (·.2) = .error (.multiple [1, 10]) ∧
+    (w.st.get ⟨true⟩ w.mods (.name "jax.x") []).map (·.2) = .ok fj2.produces := by
+  intro ops w
+  refine ⟨fun q => ?_, rfl, by decide, by decide, by decide, rfl, rfl, rfl, rfl, rfl⟩
+  have := q "jax" (by decide)
+  exact absurd this (by decide)
+
+private def fnp : Factory := { name := "numpy", produces := { uid := 30, name := "numpy", priority := -1, accepts := [3], invalid := false } }
+private def fj3 : Factory := { name := "jax.y", produces := { uid := 13, name := "jax.y", priority := 0, accepts := [6], invalid := false } }
+
+/-- Non-vacuity of `lazy_history_spec` / `lazy_effective_state` / `lazy_history_independent`: in the first history
+numpy is imported from the start (its backend is registered eagerly), the jax factories are registered lazily,
+lookups happen before and after `import jax`; in the second everything is imported first and registered eagerly in
+another order.  Both are disciplined, effectively register the same three backends, and answer `[3]` with numpy,
+`[6]` with an ambiguity enumerated in a different order, scalars with numpy. -/
+example :
+    let ops := [Op.registerOnImport "numpy" fnp, .registerOnImport "jax" fj, .registerOnImport "jax" fj3,
+      .get .none [3], .get .none [0, 1], .importModule "jax", .get .none [3], .enter ba, .exit ba]
+    let ops' := [Op.registerOnImport "jax" fj3, .registerOnImport "numpy" fnp, .registerOnImport "jax" fj, .get (.name "jax") []]
+    let w := (runOps ⟨true⟩ { st := {}, mods := ["numpy"] } ops).1
+    let w' := (runOps ⟨true⟩ { st := {}, mods := ["numpy", "jax"] } ops').1
+    disciplined { mods := ["numpy"] } ops = true ∧ disciplined { mods := ["numpy", "jax"] } ops' = true ∧
+    (∀ x, x ∈ (trackOf ["numpy"] ops).effective ↔ x ∈ (trackOf ["numpy", "jax"] ops').effective) ∧
+    UidInj (trackOf ["numpy"] ops).effective ∧ (specState ops).stack = (specState ops').stack ∧
+    (trackOf ["numpy"] ops).effective = [fnp.produces, fj.produces, fj3.produces] ∧
+    (runOps ⟨true⟩ { st := {}, mods := ["numpy"] } ops).2 =
+      [.unit, .unit, .unit, .backend 30, .backend 30, .unit, .backend 30, .unit, .unit] ∧
+    ¬ Quiet w.st w.mods ∧
+    (w.st.get ⟨true⟩ w.mods .none [6]).map (·.2) = .error (.multiple [10, 13]) ∧
+    (w'.st.get ⟨true⟩ w'.mods .none [6]).map (·.2) = .error (.multiple [13, 10]) ∧
+    (w.st.get ⟨true⟩ w.mods .none [3]).map (·.2) = .ok fnp.produces ∧
+    (w'.st.get ⟨true⟩ w'.mods .none [3]).map (·.2) = .ok fnp.produces := by
+  intro ops ops' w w'
+  refine ⟨by decide, by decide, fun x => List.Perm.mem_iff (by decide), uidInj_of_nodup _ (by decide), rfl, rfl, rfl,
+    fun q => ?_, rfl, rfl, rfl, rfl⟩
+  exact absurd (q "jax" (by decide)) (by decide)
+
+/-- **The discipline cannot be dropped**: a backend registered eagerly and a factory registered lazily for the same
+tensor type.  After the module is imported the lookup still answers with the eager backend (no import check
+happens because a supporting backend exists), although the effective state selects the higher-priority lazy one;
+a lookup by name in between (which does run the import check) changes the answer.  (Not reachable with einx's own registrations.) -/
+theorem lazy_mix_history_dependent :
+    let hi : Factory := { name := "hi", produces := { uid := 20, name := "hi", priority := 5, accepts := [3], invalid := false } }
+    let ops := [Op.register ba, .registerOnImport "m" hi, .importModule "m"]
+    let w := (runOps ⟨true⟩ {} ops).1
+    let w' := (runOps ⟨true⟩ {} (ops ++ [.getByName "hi"])).1
+    (w.st.get ⟨true⟩ w.mods .none [3]).map (·.2) = .ok ba ∧
+    specGet (w.st.flush ⟨true⟩ w.mods) .none [3] = .ok hi.produces ∧
+    (w'.st.get ⟨true⟩ w'.mods .none [3]).map (·.2) = .ok hi.produces ∧
+    ¬ LazyDiscipline ⟨true⟩ w.st w.mods [3] ∧ disciplined {} ops = false := by
+  intro hi ops w w'
+  exact ⟨rfl, rfl, rfl, by decide, rfl⟩
+
+private def fhi : Factory := { name := "hi", produces := { uid := 20, name := "hi", priority := 5, accepts := [8], invalid := false } }
+private def earlyOps : List Op := [.register ba, .registerOnImport "m" fhi, .get .none [3, 8], .importModule "m"]
+
+/-- … nor can "tensors of a framework only exist after its module is imported": type ownership is respected here,
+but a lookup involves the lazily registered framework's tensor type before the import; its memo entry survives the
+import (which registers nothing by itself) and the next identical lookup answers from it, although the effective
+state selects the now available higher-priority backend
+(`earlyOps = [register a, register_on_import("m", hi), get [3, 8], import m]`). -/
+theorem lazy_early_tensor_history_dependent :
+    (((runOps ⟨true⟩ {} earlyOps).1.st.get ⟨true⟩ (runOps ⟨true⟩ {} earlyOps).1.mods .none [3, 8]).map (·.2) = .ok ba) ∧
+    specGet ((runOps ⟨true⟩ {} earlyOps).1.st.flush ⟨true⟩ (runOps ⟨true⟩ {} earlyOps).1.mods) .none [3, 8] = .ok fhi.produces ∧
+    disciplined {} [Op.register ba, .registerOnImport "m" fhi] = true ∧ disciplined {} earlyOps = false :=
+  ⟨rfl, rfl, rfl, rfl⟩
+end NonVacuityLazy
 
 end Einx.Registry
